@@ -159,8 +159,10 @@ func (mb *mbox) writeIndex() error {
 		if err := mb.createDir(); err != nil {
 			return err
 		}
-		// Open index for writing
-		file, err := os.Create(mb.indexPath)
+		// Write the new index to a temporary file, then rename it over the live one, so that a crash
+		// at any point leaves either the old or the new index, never a truncated one.
+		tmpPath := mb.indexPath + ".tmp"
+		file, err := os.Create(tmpPath)
 		if err != nil {
 			return err
 		}
@@ -184,6 +186,9 @@ func (mb *mbox) writeIndex() error {
 		if err := file.Close(); err != nil {
 			log.Error().Str("module", "storage").Str("path", mb.indexPath).Err(err).
 				Msg("Failed to close")
+			return err
+		}
+		if err := os.Rename(tmpPath, mb.indexPath); err != nil {
 			return err
 		}
 	} else {
